@@ -37,6 +37,7 @@ type Clause struct {
 type LoopSpec struct {
 	Invariants []*Clause
 	ModExtra   []string
+	Unroll     bool // range over a constant-length collection: execute the body once per element instead of cutting the loop
 }
 
 type UseSpec struct {
@@ -59,6 +60,7 @@ type Contract struct {
 	Loops    map[int]*LoopSpec
 	Uses     []*UseSpec
 	Asserts  []*UseSpec
+	Assumes  []*UseSpec // library facts assumed at a program point (listed in the trusted base)
 	Inline   bool
 	Iface    bool   // contract of an interface method: assumed for arbitrary implementations
 	Impl     string // "Type.Method": this function (or closure) must satisfy that interface contract
@@ -136,7 +138,7 @@ var langHdr = regexp.MustCompile(`^lang\s+([A-Za-z_][A-Za-z0-9_]*)\s*=\s*([a-z]+
 
 var poolHdr = regexp.MustCompile(`^pool\s+([A-Za-z_][A-Za-z0-9_]*)\s+(\S+)\s*:\s*(.*)$`)
 
-var clauseKeywords = []string{"func", "spec", "lemma", "lang", "pool", "interface", "implements", "let", "running", "requires", "ensures", "modifies", "loop", "use", "assert", "inline", "trusted", "pure"}
+var clauseKeywords = []string{"func", "spec", "lemma", "lang", "pool", "interface", "implements", "let", "running", "assume", "requires", "ensures", "modifies", "loop", "use", "assert", "inline", "trusted", "pure"}
 
 func startsKeyword(s string) string {
 	for _, k := range clauseKeywords {
@@ -515,6 +517,15 @@ func (cs *ContractSet) parse(src, file, pkgPath string) {
 				}
 			case "loop":
 				f := strings.Fields(rest)
+				if len(f) == 2 && f[1] == "unroll" {
+					n := 0
+					fmt.Sscanf(f[0], "%d", &n)
+					if cur.Loops[n] == nil {
+						cur.Loops[n] = &LoopSpec{}
+					}
+					cur.Loops[n].Unroll = true
+					continue
+				}
 				if len(f) < 3 {
 					cs.errf(file, rc.line, "bad loop clause %q", rc.text)
 					continue
@@ -539,7 +550,7 @@ func (cs *ContractSet) parse(src, file, pkgPath string) {
 				default:
 					cs.errf(file, rc.line, "bad loop clause %q", rc.text)
 				}
-			case "use", "assert":
+			case "use", "assert", "assume":
 				// use <where>: expr
 				k := strings.Index(rest, ":")
 				if k < 0 {
@@ -560,10 +571,13 @@ func (cs *ContractSet) parse(src, file, pkgPath string) {
 					continue
 				}
 				u := &UseSpec{Props: uprops, Where: where, Expr: e, Text: strings.TrimSpace(rest[k+1:])}
-				if kw == "use" {
+				switch kw {
+				case "use":
 					cur.Uses = append(cur.Uses, u)
-				} else {
+				case "assert":
 					cur.Asserts = append(cur.Asserts, u)
+				default:
+					cur.Assumes = append(cur.Assumes, u)
 				}
 			case "interface":
 				cur.Iface = true
